@@ -47,6 +47,9 @@ func stErrName(err error) string {
 			return n
 		}
 	}
+	if err == fp.ErrOptionEmpty {
+		return "none"
+	}
 	return "?"
 }
 
@@ -149,6 +152,23 @@ func (r *stRec) build(p *STProg) ST {
 			return func(b []int) []int { return append(append([]int{}, a...), b...) }
 		})
 		return statet.Ap(fn, r.build(p.Q))
+	case "aptry", "apoption":
+		// a stateful function program applied to a plain Try / Option operand (x = 1: the operand is a failure / None)
+		fn := statet.Map(r.build(p.P), func(a []int) fp.Func1[[]int, []int] {
+			return func(b []int) []int { return append(append([]int{}, a...), b...) }
+		})
+		if p.K == "aptry" {
+			arg := fp.Success([]int{8})
+			if p.X == 1 {
+				arg = fp.Failure[[]int](stErrs["e3"])
+			}
+			return statet.ApTry(fn, arg)
+		}
+		arg := fp.Some([]int{8})
+		if p.X == 1 {
+			arg = fp.None[[]int]()
+		}
+		return statet.ApOption(fn, arg)
 	case "seq":
 		ps := make([]ST, len(p.Ps))
 		for i, q := range p.Ps {
@@ -330,7 +350,9 @@ func randST(r *rand.Rand, depth int, id *int) *STProg {
 		}
 		return xs
 	}
-	switch r.Intn(9) {
+	switch r.Intn(10) {
+	case 9:
+		return &STProg{K: []string{"aptry", "apoption"}[r.Intn(2)], P: sub(), X: r.Intn(2)}
 	case 0:
 		return &STProg{K: "fm", P: sub(), C: stConts[r.Intn(len(stConts))]}
 	case 1:
